@@ -34,7 +34,7 @@ type pkgInfo struct {
 	pvars   map[string]string // package-level variable -> declared type / initialiser text
 }
 
-var exemptType = []string{"logrus.", "log.Logger", "regexp.", "sync.", "atomic.", "vsync."}
+var exemptType = []string{"logrus.", "log.Logger", "regexp.", "sync.Mutex", "sync.RWMutex", "sync.Once", "sync.WaitGroup", "atomic.", "vsync."}
 
 func exprText(fset *token.FileSet, e ast.Expr) string {
 	if e == nil {
@@ -234,6 +234,8 @@ func main() {
 		}
 	}
 	// pass 2: yields
+	coarse := os.Getenv("INSTRUMENT_COARSE") != "0"
+	nfn := 0
 	var sites []string
 	for _, pi := range pkgs {
 		for fname, f := range pi.pkg.Files {
@@ -354,6 +356,19 @@ func main() {
 					return outl
 				}
 				fd.Body.List = block(fd.Body.List)
+				if coarse {
+					// coarse scheduling point at the entry of every function of the instrumented packages (shared state that
+					// the syntactic analysis cannot see - objects handed out by a cache or pool, aliases - is still interleaved
+					// at call granularity); the harness bounds the dynamic instances per function and thread
+					recv := ""
+					if fd.Recv != nil && len(fd.Recv.List) > 0 {
+						recv = strings.TrimPrefix(exprText(pi.fset, fd.Recv.List[0].Type), "*") + "."
+					}
+					label := "fn:" + pi.pkg.Name + "." + recv + fd.Name.Name
+					fd.Body.List = append([]ast.Stmt{&ast.ExprStmt{X: &ast.CallExpr{Fun: &ast.SelectorExpr{X: ast.NewIdent("vsched"), Sel: ast.NewIdent("Yield")}, Args: []ast.Expr{&ast.BasicLit{Kind: token.STRING, Value: strconv.Quote(label)}}}}}, fd.Body.List...)
+					nfn++
+					changed, usesSched = true, true
+				}
 				// closures
 				ast.Inspect(fd.Body, func(m ast.Node) bool {
 					if fl, ok := m.(*ast.FuncLit); ok {
@@ -421,6 +436,7 @@ func main() {
 		ms = append(ms, m)
 	}
 	sort.Strings(ms)
-	js, _ := json.Marshal(map[string]interface{}{"mutated": ms, "sites": len(sites)})
+	fmt.Printf("function-entry yields inserted: %d\n", nfn)
+	js, _ := json.Marshal(map[string]interface{}{"mutated": ms, "sites": len(sites), "functions": nfn})
 	os.WriteFile(filepath.Join(out, "instrument.json"), js, 0o644)
 }
